@@ -93,6 +93,14 @@ def run_checked(ctx):
                        "remove or a drop")
     ctx.cov["samples"] = [{"universe": h["strs"][:4], "operations": [s["op"] for s in h["steps"][:6]],
                            "observed_after_last": h["steps"][-1]["obs"]["graphs"]} for h in hists[:2]]
+    # concurrent creators / droppers of one name: exactly one NewGraph (DeleteGraph) succeeds and Graph(name) is the
+    # winner's graph (the store stays a map from names to graphs under concurrent creation)
+    bu = sc.hstore(["-mode", "burst", "-n", 300 if ctx.quick() else 5000])[0]
+    ctx.cov["concurrent_create_drop_rounds"] = bu["rounds"]
+    if bu["bad_create"] or bu["bad_delete"] or bu["bad_handle"]:
+        ctx.violation({"kind": "concurrent-NewGraph-DeleteGraph-on-one-name", "detail": bu,
+                       "explain": "8 goroutines create (then drop) the same new name: not exactly one call succeeded, or "
+                                  "Graph(name) is not the graph of the successful creator"})
     length = 3 if ctx.quick() else 4
     e, ebad = exhaustive(ctx, length)
     ctx.cov["exhaustive"] = {"histories": e["histories"], "length": length, "alphabet": len(e["alphabet"]),
